@@ -11,12 +11,12 @@ From RV Require Export Model.Table.
 Inductive outcome :=
 | Ok (t : tree) (consumed : nat)
 | Err (k : nat) (exp : list nat)      (* error at token index k, expected kinds *)
+| ErrNoAction                       (* no action for the lookahead: "Can't continue in state" *)
 | Panic (site : nat)
 | OutOfFuel.
 
 (* Panic sites *)
 Definition P_EMPTY_STACK := 1.   (* ParseStack::state: last().unwrap() *)
-Definition P_EMPTY_CELL := 2.    (* actions(state, kind)[0] *)
 Definition P_POP := 3.           (* pop_states: split_off / last().unwrap() *)
 Definition P_GOTO := 4.          (* goto undefined *)
 Definition P_BUILDER := 5.       (* TreeBuilder split_off *)
@@ -53,7 +53,7 @@ Definition step (g : grammar) (T : table) (partial : bool) (c : conf) : sres :=
       | NoTok => Done (Err (c_pos c) (expected T s))
       | Tok a real =>
           match cell T s a with
-          | [] => Done (Panic P_EMPTY_CELL)
+          | [] => Done ErrNoAction
           | Shift s' :: _ =>
               Next (mkConf (s' :: c_stk c) (Leaf a :: c_trs c)
                            (if real then tl (c_inp c) else c_inp c)
